@@ -322,9 +322,13 @@ def cases(rng, tier):
     edge = [0, 1, -1, 6, 127, 128, 255, 256, 32767, 32768, 65535, 65536, 2 ** 31 - 1, -2 ** 31, -2 ** 31 + 1, 10 ** 9, -10 ** 9]
     out.append(consts_case("pool-ints", [("i", v) for v in edge], whole=True))
     out.append(consts_case("pool-ints", [("i", v) for v in edge], wide=True, whole=True))
+    # pools with more than 43 constants: record offsets >= 256 are loaded with the two-byte operand form (opcode 0x84)
+    for wide in (False, True):
+        big = [("i", 1000 + 7 * k) for k in range(40)] + [("s", b"k%d" % k) for k in range(40, 56)] + [("i", -(k * k) - 40000) for k in range(56, 70)]
+        out.append(consts_case("pool-two-byte-offsets", big, wide=wide, whole=True))
     for i in range(npool):
         consts = []
-        for _ in range(rng.choice([1, 2, 5, 12])):
+        for _ in range(rng.choice([1, 2, 5, 12, 12, 48, 70] if i % 10 == 0 else [1, 2, 5, 12])):
             r = rng.random()
             if r < 0.35:
                 consts.append(("i", rng.choice(edge + [rng.randrange(-2 ** 31, 2 ** 31)] * 3)))
